@@ -186,7 +186,24 @@ func probeChild(jobFile string, watchdog time.Duration) {
 
 // probe runs the tasks in child processes (batches, a few in parallel) and returns the results by task id.
 func probe(scratch string, tasks []task) map[int]result {
-	const batch = 80
+	// phase 1: everything, big batches.  phase 2: whatever did not return gets a second chance in small
+	// batches (few spinning goroutines per child), so that a slow machine is not mistaken for a hang.
+	out := probeOnce(scratch, "p1", tasks, 200)
+	var again []task
+	for _, t := range tasks {
+		if !out[t.ID].Done {
+			again = append(again, t)
+		}
+	}
+	if len(again) > 0 {
+		for id, r := range probeOnce(scratch, "p2", again, 60) {
+			out[id] = r
+		}
+	}
+	return out
+}
+
+func probeOnce(scratch, tag string, tasks []task, batch int) map[int]result {
 	const parallel = 3
 	type job struct {
 		file  string
@@ -199,7 +216,7 @@ func probe(scratch string, tasks []task) map[int]result {
 		if j > len(tasks) {
 			j = len(tasks)
 		}
-		f := filepath.Join(scratch, fmt.Sprintf("job-%d.json", len(jobs)))
+		f := filepath.Join(scratch, fmt.Sprintf("job-%s-%d.json", tag, len(jobs)))
 		raw, _ := json.Marshal(tasks[i:j])
 		if err := os.WriteFile(f, raw, 0o644); err != nil {
 			rec.Fatal("probe: %v", err)
@@ -260,6 +277,7 @@ type scenario struct {
 	keys     []int // write order (indexes 1..6, may repeat)
 	compress bool
 	hdr      bool
+	absent   bool // only the lookups of never-written keys (no crash copies)
 	dir      string
 	writes   []wrec
 	saveRes  string
@@ -342,6 +360,17 @@ func (s *scenario) build(r *rand.Rand) {
 			s.datEnds = append(s.datEnds, after)
 		}
 	}
+	if s.absent {
+		s.saveRes = guardS(func() error { return db.Save() })
+		var abs []int
+		for k := 0; k <= 7; k++ {
+			if vers[k] == 0 {
+				abs = append(abs, k)
+			}
+		}
+		s.opens = []*open{{crash: "none", cut: fileSize(file + ".idx"), of: fileSize(file + ".idx"), file: file, reads: abs}}
+		return
+	}
 	// the files as a crash during the writes left them: copied before Save creates the .idx
 	datFull := fileSize(file + ".dat")
 	cuts := map[int64]bool{0: true}
@@ -364,9 +393,14 @@ func (s *scenario) build(r *rand.Rand) {
 		s.opens = append(s.opens, &open{crash: "dat", cut: c, of: datFull, file: f})
 	}
 	s.saveRes = guardS(func() error { return db.Save() })
-	// normal reopen: every key of the universe
-	all := []int{0, 1, 2, 3, 4, 5, 6, 7}
-	s.opens = append([]*open{{crash: "none", cut: fileSize(file + ".idx"), of: fileSize(file + ".idx"), file: file, reads: all}}, s.opens...)
+	// normal reopen: every written key (the never-written ones are looked up in the "absent" traces)
+	var pres []int
+	for k := 0; k <= 7; k++ {
+		if vers[k] > 0 {
+			pres = append(pres, k)
+		}
+	}
+	s.opens = append([]*open{{crash: "none", cut: fileSize(file + ".idx"), of: fileSize(file + ".idx"), file: file, reads: pres}}, s.opens...)
 	// the files as a crash during Save left them: complete .dat, .idx cut at every write boundary + midpoints
 	idxFull := fileSize(file + ".idx")
 	nkeys := len(vers)
@@ -482,16 +516,14 @@ func Run(a hc.Args) {
 	maxn := extraInt(a.Extra, "maxn", 3)
 
 	// ------------------------------------------------------------ (a) scenarios
-	var scs []*scenario
-	id := 0
-	add := func(kind string, keys []int) {
-		id++
-		if a.Only != 0 && a.Only != id {
-			return
-		}
-		scs = append(scs, &scenario{id: id, kind: kind, keys: keys, compress: id%3 == 1, hdr: id%3 != 2,
-			dir: filepath.Join(scratch, fmt.Sprintf("s%d", id))})
+	// traces 1..nA: one database each: written keys read back, every crash copy.
+	// traces nA+1..nA+3 ("absent" groups): the same databases again, each followed by the lookups of every
+	// key that was never written (below / between / above the stored keys).
+	type keyset struct {
+		kind string
+		keys []int
 	}
+	var sets []keyset
 	for mask := 1; mask < 1<<6; mask++ {
 		var sub []int
 		for i := 0; i < 6; i++ {
@@ -509,22 +541,52 @@ func Run(a hc.Args) {
 		case 2:
 			sub = append(sub[len(sub)/2:], sub[:len(sub)/2]...)
 		}
-		add("subset", sub)
+		sets = append(sets, keyset{"subset", sub})
 	}
-	nSubset := id
+	nSubset := len(sets)
 	for i := 0; i < a.N; i++ { // seeded random: more records, repeated keys
-		r := hc.TraceRand(a.Seed, id+1)
+		r := hc.TraceRand(a.Seed, len(sets)+1)
 		n := 1 + r.Intn(8)
 		keys := make([]int, n)
 		for j := range keys {
 			keys[j] = 1 + r.Intn(6)
 		}
-		add("random", keys)
+		sets = append(sets, keyset{"random", keys})
 	}
-	nDB := id
+	nA := len(sets)
+	mk := func(id, n int, ks keyset, absent bool) *scenario {
+		return &scenario{id: id, kind: ks.kind, keys: ks.keys, compress: n%3 == 1, hdr: n%3 != 2, absent: absent,
+			dir: filepath.Join(scratch, fmt.Sprintf("s%d-%d", id, n))}
+	}
+	var scs []*scenario // in trace order
+	for i, ks := range sets {
+		if a.Only == 0 || a.Only == i+1 {
+			scs = append(scs, mk(i+1, i+1, ks, false))
+		}
+	}
+	groupOf := func(ks keyset) int { // 1: subsets of <= 2 keys, 2: bigger subsets, 3: random
+		switch {
+		case ks.kind == "random":
+			return 3
+		case len(ks.keys) <= 2:
+			return 1
+		}
+		return 2
+	}
+	for g := 1; g <= 3; g++ {
+		if a.Only != 0 && a.Only != nA+g {
+			continue
+		}
+		for i, ks := range sets {
+			if groupOf(ks) == g {
+				scs = append(scs, mk(nA+g, i+1, ks, true))
+			}
+		}
+	}
+	nDB := nA + 3
 	var tasks []task
 	for _, s := range scs {
-		s.build(hc.TraceRand(a.Seed, s.id))
+		s.build(hc.TraceRand(a.Seed, len(s.dir)*7919+s.id))
 		for _, o := range s.opens {
 			o.openT = len(tasks)
 			tasks = append(tasks, task{ID: o.openT, File: o.file, Compress: s.compress, Hdr: s.hdr})
@@ -551,10 +613,18 @@ func Run(a hc.Args) {
 		}
 		return r.Res
 	}
+	cur := 0
 	for _, s := range scs {
-		rc.TraceID = s.id - 1
-		rc.Reset(rec.M{"family": "blockdb", "kind": s.kind, "id": s.id, "seed": a.Seed, "keys": s.keys, "compress": s.compress, "hdr": s.hdr},
-			rec.M{"mode": "blockdb", "compress": s.compress, "hdr": s.hdr})
+		if s.id != cur {
+			cur = s.id
+			rc.TraceID = s.id - 1
+			sc := rec.M{"family": "blockdb", "kind": s.kind, "id": s.id, "seed": a.Seed, "keys": s.keys, "compress": s.compress, "hdr": s.hdr}
+			if s.absent {
+				sc = rec.M{"family": "blockdb", "kind": "absent-keys", "id": s.id, "seed": a.Seed, "group": s.id - nA}
+			}
+			rc.Reset(sc, rec.M{"mode": "blockdb"})
+		}
+		rc.Emit(rec.M{"ev": "BNew", "keys": s.keys, "compress": s.compress, "hdr": s.hdr}, "db", false)
 		written := map[int]bool{}
 		for _, w := range s.writes {
 			rc.Emit(rec.M{"ev": "BWrite", "k": w.k, "ver": w.ver, "sum": w.sum, "res": w.res}, w.res, true)
@@ -575,6 +645,7 @@ func Run(a hc.Args) {
 			}
 		}
 	}
+	rc.TraceID = nDB
 	rc.Extra["x_subset_scenarios"] = nSubset
 	rc.Extra["x_probe_tasks"] = len(tasks)
 
